@@ -18,6 +18,9 @@ import (
 var raceDeciding = map[string]bool{
 	"C04": true, "C05": true, "C07": true, "C08": true, "C09": true,
 	"C11": true, "C12": true, "C15": true, "C18": true,
+	// C20's workload calls the (documented-pure) phrase and key functions from
+	// several goroutines, starting with the very first use in the process
+	"C20": true,
 }
 
 // properties that promise "error, never a panic / does not crash".
